@@ -355,7 +355,7 @@ fn run_iter_case(case: &Case, ic: &IterCase, out: &mut WorkerOut) {
                 break;
             }
             let r = h.rt.block_on(async {
-                tokio::time::timeout(Duration::from_secs(20), async {
+                tokio::time::timeout(Duration::from_secs(60), async {
                     match it {
                         OpenIter::S(i) => i.next_batch(ic.batch).await.map_err(|e| e.to_string()),
                         OpenIter::P(i) => i.next_batch(ic.batch).await.map_err(|e| e.to_string()),
@@ -365,7 +365,7 @@ fn run_iter_case(case: &Case, ic: &IterCase, out: &mut WorkerOut) {
             });
             match r {
                 Err(_) => {
-                    error = Some("next_batch did not return within 20 s".into());
+                    error = Some("next_batch did not return within 60 s".into());
                     break;
                 }
                 Ok(Err(e)) => {
@@ -452,7 +452,7 @@ pub enum Obs {
 fn do_call(rt: &tokio::runtime::Runtime, db: &Database, c: Call, ids: &[Uuid], first_stepped: u64) -> Obs {
     let part = partition_of(0);
     let r = rt.block_on(async {
-        tokio::time::timeout(Duration::from_secs(20), async {
+        tokio::time::timeout(Duration::from_secs(60), async {
             match c {
                 Call::ReadEvent(i) => match db.read_event(part, ids[i as usize]).await {
                     Ok(e) => Obs::Event(e.map(|e| e.event_id.as_u128())),
@@ -506,7 +506,7 @@ fn do_call(rt: &tokio::runtime::Runtime, db: &Database, c: Call, ids: &[Uuid], f
         })
         .await
     });
-    r.unwrap_or(Obs::Error("read call did not return within 20 s".into()))
+    r.unwrap_or(Obs::Error("read call did not return within 60 s".into()))
 }
 
 /// The append that is stepped through, one pause point at a time.
@@ -552,12 +552,12 @@ impl Writer {
                 }));
             }
         }
-        let deadline = std::time::Instant::now() + Duration::from_secs(15);
+        let deadline = std::time::Instant::now() + Duration::from_secs(60);
         loop {
             let now = writer_hits();
             if let Some(i) = (0..now.len()).find(|&i| now[i] > before[i]) {
                 let l = WRITER_LABELS[i];
-                if !pause::wait_parked(l, Duration::from_secs(5)) {
+                if !pause::wait_parked(l, Duration::from_secs(30)) {
                     return Err(format!("the writer passed {l} without parking there"));
                 }
                 self.parked_at = Some(l);
@@ -572,7 +572,7 @@ impl Writer {
                 return if ok { Ok(()) } else { Err("the stepped append failed".into()) };
             }
             if std::time::Instant::now() > deadline {
-                return Err(format!("after position {} ({:?}) the writer neither reached a pause point nor returned within 15 s", self.pos, self.trail.last()));
+                return Err(format!("after position {} ({:?}) the writer neither reached a pause point nor returned within 60 s", self.pos, self.trail.last()));
             }
             std::thread::sleep(Duration::from_micros(30));
         }
@@ -644,7 +644,7 @@ fn prepare(scenario: Scenario, compression: bool) -> Result<Prepared, String> {
                 flag.store(ok, Ordering::SeqCst);
                 ok
             }));
-            let deadline = std::time::Instant::now() + Duration::from_secs(10);
+            let deadline = std::time::Instant::now() + Duration::from_secs(40);
             while pause::hits("append:before-reply") == written_before {
                 if std::time::Instant::now() > deadline {
                     return Err("append A was not written within 10 s".into());
@@ -747,7 +747,7 @@ pub fn run_case(case: &Case, out: &mut WorkerOut) {
             // a reader that blocks on the live-index lock while the writer is parked inside the locked part of the
             // rollover is not enabled: move the writer on, one position at a time, until the call returns
             loop {
-                match res_rx.recv_timeout(Duration::from_millis(if w.pos == 0 || w.done { 25_000 } else { 150 })) {
+                match res_rx.recv_timeout(Duration::from_millis(if w.pos == 0 || w.done { 60_000 } else { 150 })) {
                     Ok(o) => {
                         obs = Some(o);
                         break;
@@ -768,7 +768,7 @@ pub fn run_case(case: &Case, out: &mut WorkerOut) {
         }
         if let Some(l) = label {
             // wait until the call parks at the split point or finishes without reaching it
-            let deadline = std::time::Instant::now() + Duration::from_secs(25);
+            let deadline = std::time::Instant::now() + Duration::from_secs(60);
             let mut blocked_since = std::time::Instant::now();
             loop {
                 if let Ok(o) = res_rx.try_recv() {
@@ -808,7 +808,7 @@ pub fn run_case(case: &Case, out: &mut WorkerOut) {
         let o = match obs {
             Some(o) => o,
             None => loop {
-                match res_rx.recv_timeout(Duration::from_millis(if w.done { 25_000 } else { 150 })) {
+                match res_rx.recv_timeout(Duration::from_millis(if w.done { 60_000 } else { 150 })) {
                     Ok(o) => break o,
                     Err(_) => {
                         if w.done {
